@@ -23,7 +23,10 @@ EXTENDS Integers, Sequences, FiniteSets, TLC
 CONSTANTS Ups,      \* upstream connections of the selected upstream (its peers)
           NC, NU,   \* chunks the client / each upstream wants to send
           ClientEnd,  \* how the client finishes: "fin" | "close" | "rst"
-          UpEnd       \* how upstreams finish:    "fin" | "close" | "rst"
+          UpEnd,      \* how upstreams finish:    "fin" | "close" | "rst"
+          DownCanHalfClose,  \* the downstream connection the proxy holds offers CloseWrite (FALSE: it is a wrapper that
+                             \* hides it - what a throttle / proxy_protocol handler in front made it before the repairs)
+          ClientWaitsForEOF  \* the client sends only after it has seen the upstreams' end of stream
 
 VARIABLES c2p, c2pSt,        \* client -> proxy direction
           p2c, p2cSt,        \* proxy -> client
@@ -47,10 +50,10 @@ Init == /\ c2p = <<>> /\ c2pSt = "open" /\ p2c = <<>> /\ p2cSt = "open"
         /\ wg = Cardinality(Ups) /\ downCh = 0 /\ upClosed = [u \in Ups |-> FALSE]
 
 \* ---- environment ----
-ClientWrite == /\ cSent < NC /\ c2pSt = "open"
+ClientWrite == /\ cSent < NC /\ c2pSt = "open" /\ (ClientWaitsForEOF => cEOF)
                /\ cSent' = cSent + 1 /\ c2p' = Append(c2p, cSent + 1)
                /\ UNCHANGED <<c2pSt, p2c, p2cSt, p2u, p2uSt, u2p, u2pSt, uSent, cGot, uGot, cEOF, uEOF, pump, copier, main, wg, downCh, upClosed>>
-ClientFinish == /\ cSent = NC /\ c2pSt = "open"
+ClientFinish == /\ cSent = NC /\ c2pSt = "open" /\ (ClientWaitsForEOF => cEOF)
                 /\ c2pSt' = (IF ClientEnd = "rst" THEN "rst" ELSE "fin")
                 /\ c2p' = (IF ClientEnd = "rst" THEN <<>> ELSE c2p)
                 \* a full close / reset also ends the client's reading side
@@ -107,7 +110,7 @@ CopierEnd(u) == /\ copier[u] = "run" /\ ((u2p[u] = <<>> /\ u2pSt[u] = "fin") \/ 
                 /\ UNCHANGED <<c2p, c2pSt, p2c, p2cSt, p2u, p2uSt, u2p, u2pSt, cSent, uSent, cGot, uGot, cEOF, uEOF, pump, main, downCh, upClosed>>
 \* Main: wg.Wait(); CloseWrite(down)
 MainHalfClose == /\ main = "wait" /\ wg = 0
-                 /\ p2cSt' = (IF p2cSt = "open" THEN "fin" ELSE p2cSt)
+                 /\ p2cSt' = (IF p2cSt = "open" /\ DownCanHalfClose THEN "fin" ELSE p2cSt)
                  /\ main' = "join"
                  /\ UNCHANGED <<c2p, c2pSt, p2c, p2u, p2uSt, u2p, u2pSt, cSent, uSent, cGot, uGot, cEOF, uEOF, pump, copier, wg, downCh, upClosed>>
 \* <-downConnClosedCh; return; deferred close of every upstream connection
@@ -117,7 +120,11 @@ MainReturn == /\ main = "join" /\ downCh = 1
               /\ p2uSt' = [u \in Ups |-> IF p2uSt[u] = "open" THEN "fin" ELSE p2uSt[u]]
               /\ UNCHANGED <<c2p, c2pSt, p2c, p2cSt, p2u, u2p, u2pSt, cSent, uSent, cGot, uGot, cEOF, uEOF, pump, copier, wg, downCh>>
 
-Next == \/ ClientWrite \/ ClientFinish \/ ClientRead \/ ClientSeesEOF
+\* Server.handle: the connection is closed once the handler chain has returned
+ServerClose == /\ main = "returned" /\ p2cSt = "open" /\ p2cSt' = "fin"
+               /\ UNCHANGED <<c2p, c2pSt, p2c, p2u, p2uSt, u2p, u2pSt, cSent, uSent, cGot, uGot, cEOF, uEOF, pump, copier, main, wg, downCh, upClosed>>
+
+Next == \/ ServerClose \/ ClientWrite \/ ClientFinish \/ ClientRead \/ ClientSeesEOF
         \/ \E u \in Ups : UpWrite(u) \/ UpFinish(u) \/ UpRead(u) \/ UpSeesEOF(u) \/ CopierCopy(u) \/ CopierEnd(u)
         \/ PumpCopy \/ PumpEnd \/ PumpShutdown \/ MainHalfClose \/ MainReturn
 Spec == Init /\ [][Next]_vars /\ WF_vars(Next)
